@@ -332,6 +332,17 @@ loop:
 			if !stop.keepWorking {
 				return
 			}
+			// Any work-in-progress was for a region of interest that is now
+			// stale: forget it, keeping its buffer.
+			if outWork.buffer != nil {
+				for i := range buffers {
+					if buffers[i] == nil {
+						buffers[i] = outWork.buffer
+						break
+					}
+				}
+			}
+			input, output, outWork, dRange = reqc, nil, rWork{}, Range{}
 			continue loop
 
 		case inWork := <-input:
@@ -442,6 +453,9 @@ loop:
 			if !stop.keepWorking {
 				return
 			}
+			// The region of interest is now stale: forget it (and any pending
+			// work) and wait for the next one.
+			input, output, work = roic, nil, rWork{}
 			continue loop
 
 		case roi = <-input:
